@@ -101,8 +101,26 @@ def source_of_loop(p, body, header):
     return None
 
 
-def collect_shapes(ctx, fn):
-    """{loop signature: set of shape strings}, plus hole encodings, for all extend sites in fn"""
+def delegate_of(ctx, e):
+    """the crate-local writer a call event hands the work to, or None: `out.extend_from_slice(&x.as_bytes())` (a function returning the bytes)
+    or `x.append_lines(&mut out)` (a function given the buffer): its lines are written at this point, under this loop nest"""
+    fx = ctx.fx
+    if ev_is(e, "Vec::extend_from_slice", "Vec::extend", "Vec::append"):
+        a = content(e.args[1]) if len(e.args) > 1 else None
+        if is_call(a):
+            k = a[1] if a[1] in fx.fns else mir.norm_path(a[1])
+            if k in fx.fns and fx.fns[k]["kind"] in ("Fn", "AssocFn") and "Vec<u8>" in fx.fns[k]["ret_ty"]:
+                return k
+        return None
+    k = e.path if e.path in fx.fns else e.name
+    if k in fx.fns and fx.fns[k]["kind"] in ("Fn", "AssocFn") and any("Vec<u8>" in l["ty"] and l["ty"].startswith("&mut") for l in fx.fns[k]["locals"][1:1 + fx.fns[k]["arg_count"]]):
+        return k
+    return None
+
+
+def collect_shapes(ctx, fn, _stack=()):
+    """{loop signature: set of shape strings}, plus hole encodings, for all extend sites in fn (and, spliced in under the same loop nest,
+    in the crate-local writers it delegates to)"""
     fx = ctx.fx
     body = ctx.body(fn)
     paths = ctx.paths(fn)
@@ -113,6 +131,18 @@ def collect_shapes(ctx, fn):
     for p in paths:
         groups = {}
         for e in p.events:
+            if e.kind != "call":
+                continue
+            dk = delegate_of(ctx, e) if fn not in _stack and len(_stack) < 3 else None
+            if dk is not None and dk != fn:
+                chain = loop_chain(body, e.bb)
+                sig = tuple(source_of_loop(p, body, h) for h in chain)
+                sub_shapes, sub_holes, _ = collect_shapes(ctx, dk, _stack + (fn,))
+                for sig2, ss in sub_shapes.items():
+                    shapes.setdefault(sig + sig2, set()).update(ss)
+                for (sig2, role), encs in sub_holes.items():
+                    holes.setdefault((sig + sig2, role), set()).update(encs)
+                continue
             if not ev_is(e, "Vec::extend_from_slice", "Vec::extend", "Vec::push"):
                 continue
             chain = loop_chain(body, e.bb)
@@ -178,10 +208,24 @@ def run(ctx):
         a, b = hd.get((None, "distfiles")), hd.get((None, "patchfiles"))
         ctx.check(a is not None and b is not None and dbody.dominates(a, b) and b not in dbody.loops[a], "D4-LAYOUT", DAB, "distfiles-before-patchfiles",
                   "distfiles section precedes patchfiles section", "the patchfiles section is not written after the whole distfiles section", fn_span(dbody))
-        szb = [e.bb for p in paths for e in p.events if ev_is(e, "Vec::extend_from_slice") and tuple(source_of_loop(p, dbody, h) for h in loop_chain(dbody, e.bb)) == ("distfiles",)]
+        szb = [e.bb for p in paths for e in p.events if ev_is(e, "Vec::extend_from_slice") and tuple(source_of_loop(p, dbody, h) for h in loop_chain(dbody, e.bb)) == ("distfiles",)
+               and delegate_of(ctx, e) is None]
         ck = hd.get(("distfiles", "checksums"))
-        ctx.check(bool(szb) and ck is not None and all(dbody.dominates(ck, x) for x in szb), "D4-LAYOUT", DAB, "checksums-before-size",
-                  "checksum lines precede the size line", "the size line is not written after the entry's checksum lines", fn_span(dbody))
+        dels = {delegate_of(ctx, e) for p in paths for e in p.events if e.kind == "call" and tuple(source_of_loop(p, dbody, h) for h in loop_chain(dbody, e.bb)) == ("distfiles",)} - {None}
+        if not szb and ck is None and len(dels) == 1:
+            # each distfile entry is written by a delegate (e.g. Entry::as_bytes): the order is decided there
+            dk = next(iter(dels))
+            kb = ctx.body(dk)
+            kps = ctx.paths(dk) or []
+            kck = [h for h in (kb.loops if kb else {}) if any(source_of_loop(p, kb, h) == "checksums" for p in kps)]
+            ksz = [e.bb for p in kps for e in p.events if ev_is(e, "Vec::extend_from_slice") and not loop_chain(kb, e.bb) and delegate_of(ctx, e) is None]
+            kdl = [e.bb for p in kps for e in p.events if e.kind == "call" and delegate_of(ctx, e) is not None and not loop_chain(kb, e.bb)]
+            first = (kck or kdl)
+            ctx.check(bool(ksz) and bool(first) and all(kb.dominates(first[0], x) for x in ksz), "D4-LAYOUT", DAB, "checksums-before-size",
+                      "checksum lines precede the size line (in %s)" % dk.split("::")[-1], "in %s the size line is not written after the entry's checksum lines" % dk, fn_span(kb) if kb else "")
+        else:
+            ctx.check(bool(szb) and ck is not None and all(dbody.dominates(ck, x) for x in szb), "D4-LAYOUT", DAB, "checksums-before-size",
+                      "checksum lines precede the size line", "the size line is not written after the entry's checksum lines", fn_span(dbody))
         # loops are driven by values() of the maps / the checksum vector, front to back
         for p in paths:
             for e in p.events:
